@@ -37,14 +37,19 @@ OPEN_STATEMENTS = [
     'again (rotated_ladder_car_unitary); not proved: that a CAR-preserving substitution is implemented by a unitary on Fock '
     'space (hence equal spectra); '
     'both checked by the Spec oracle (exact) and numpy eigvalsh at 1e-9',
-    'get_interaction_operator / get_quadratic_hamiltonian / get_diagonal_coulomb_hamiltonian: no theorem (they compose '
-    'normal_ordered, property C03, with a scatter loop); soundness and the round trip '
-    'get_fermion_operator(convert(A)) == normal_ordered(A) are covered by correspondence + Spec oracle only',
+    'get_interaction_operator is proved sound (get_interaction_operator_sound: scatter loop on normal-ordered input + '
+    'normal_ordered of C03, lattice coefficients (1/D)Z[i] with tol*D <= 1); get_quadratic_hamiltonian and '
+    'get_diagonal_coulomb_hamiltonian (Hermiticity checks with tolerance, antisymmetrisation halves, V_pq = V_qp = -c/2, '
+    'which need the CAR) have no theorem yet: correspondence + Spec oracle + round-trip check only',
     'get_fermion_operator(MajoranaOperator): proved for the generators (majorana_generator_sound); products and sums use '
     'FermionOperator `*` and the pruning `+=` (exact regime) and are covered by the Spec oracle '
     '(get_majorana_operator(FermionOperator) is proved at full strength: get_majorana_operator_sound)',
     'get_quad_operator / get_boson_operator: correspondence + Spec oracle only (hbar in {1/2, 2, 8})',
-    'DOCIHamiltonian tensors vs qubit_operator: not modelled (no theorem, no correspondence)',
+    'DOCIHamiltonian: Model + correspondence + Spec oracle (documented qubit form, doubly-occupied block, arithmetic); '
+    'proved: get_tensors_from_integrals entries, T = t - t^(k<->l) (doci_two_body_tensor) and the kernel-checked witnesses '
+    'of findings F08c / F08d; not proved: the closed form of get_projected_integrals_from_doci (loops of assignments), the '
+    'block identity <D t|H(tensors/2)|D s> = <t|qubit_operator|s> for all hc, hr1, hr2, and the integrals round trip '
+    '(oracle only); real input arrays only (the source writes into float arrays)',
     'tensor_sub_hom holds only when the subtrahend keys are keys of the minuend (finding F08a: tensor_sub_spec states '
     'what the code computes in general, tensor_sub_counterexample is the kernel-checked witness)',
     'elementwise PolynomialTensor * PolynomialTensor has no operator-level meaning: correspondence only',
@@ -1370,11 +1375,321 @@ def stream_rot(ctx):
     return st
 
 
+
+# ------------------------------------------------------------------ stream: DOCIHamiltonian
+
+def enc_doci(d):
+    return {'n': int(d.n_qubits), 'c': to_gq(d.constant), 'hc': enc_tensor(numpy.asarray(d.hc)),
+            'hr1': enc_tensor(numpy.asarray(d.hr1)), 'hr2': enc_tensor(numpy.asarray(d.hr2))}
+
+
+def canon_doci(j):
+    return (j['n'], from_gq(j['c']), canon_tensor(j['hc'], 1), canon_tensor(j['hr1'], 2), canon_tensor(j['hr2'], 2))
+
+
+def drop_zero(jop):
+    return [[t, c] for t, c in jop if from_gq(c) != (0, 0)]
+
+
+def rand_real(rng, shape, zero_p=0.2):
+    a = numpy.zeros(shape)
+    for idx in itertools.product(*[range(k) for k in shape]):
+        if rng.random() >= zero_p:
+            a[idx] = rng.randint(-8, 8) / 4
+    return a
+
+
+def rand_doci(of, rng, n, symmetric):
+    hc = rand_real(rng, (n,))
+    a = rand_real(rng, (n, n))
+    b = rand_real(rng, (n, n))
+    if symmetric:
+        hr1 = a + a.T
+        numpy.fill_diagonal(hr1, 0.0)
+        hr2 = b + b.T
+    else:
+        hr1, hr2 = a, b
+    return of.DOCIHamiltonian(float(rng.randint(-4, 4)) / 2, hc, hr1, hr2)
+
+
+def halve_two_body(jpt):
+    out = []
+    for k, t in jpt['d']:
+        if len(k) == 4:
+            def h(x, depth):
+                if depth == 0:
+                    a, b = from_gq(x)
+                    return to_gq((a / 2, b / 2))
+                return [h(y, depth - 1) for y in x]
+            out.append([k, h(t, 4)])
+        else:
+            out.append([k, t])
+    return {'n': jpt['n'], 'd': out}
+
+
+def settle_tensor_mismatch(orc, st, case, n, jT, mT):
+    """the tensors differ from the Model's (which mirrors finding F08c): silent when they denote the
+    operator the Model's tensors denote with the two-body part halved (a tree on which F08c was repaired)"""
+    got = {}
+
+    def mk(key):
+        def cb(den):
+            got[key] = den
+            if len(got) == 2:
+                def cb2(a):
+                    st.count('doci:tensor-mismatch-' + ('repaired' if a['eq'] else 'disagree'))
+                    if not a['eq']:
+                        st.disagree('DOCIHamiltonian.n_body_tensors', case, jT, mT)
+                orc.ask({'op': 'spec.eq', 'alg': 'fermion', 'n': 2 * n, 'd': 0, 'lhs': leaf(got['impl']),
+                         'rhs': leaf(got['model'])}, cb2)
+        return cb
+    orc.denote_pt(jT, mk('impl'))
+    orc.denote_pt(halve_two_body(mT), mk('model'))
+
+
+def stream_doci(ctx):
+    of = ctx.of
+    from openfermion.ops.representations.doci_hamiltonian import (get_doci_from_integrals,
+                                                                  get_projected_integrals_from_doci)
+    st = Stream('doci-hamiltonian',
+                'DOCIHamiltonian(constant, hc, hr1, hr2) on 1..3 spatial orbitals with real dyadic arrays (symmetric hr1 / hr2 '
+                'with zero hr1 diagonal, and arbitrary ones): n_body_tensors, get_projected_integrals, __getitem__ (valid and '
+                'invalid arguments), qubit_operator, += -= *= /=, get_doci_from_integrals, from_integrals compared exactly '
+                'with the Model; Spec: qubit_operator equals the documented hard-core-boson form (spec.eq), the fermion '
+                'operator denoted by the tensors restricted to the doubly-occupied states equals qubit_operator, '
+                '__getitem__ returns the stored tensor entry, arithmetic acts on qubit_operator; distinct = distinct inputs')
+    orc = Oracle(ctx)
+    rng = rng_for(ctx.seed, 'c08-doci')
+    N = budget(ctx.tier, 60, 600)
+    if ctx.drift:
+        N = max(N, 200)
+    items, reqs = [], []
+    for i in range(N):
+        n = rng.choice([1, 2, 2, 3]) if i % 6 else rng.choice([1, 2])
+        sym = rng.random() < 0.7
+        d = rand_doci(of, rng, n, sym)
+        jd = enc_doci(d)
+        args = []
+        for _ in range(6):
+            L = rng.choice([0, 2, 4, 4, 4, 1, 3])
+            r = rng.random()
+            if L == 4 and r < 0.35:
+                i_, j_ = rng.randrange(2 * n), rng.randrange(2 * n)
+                a_ = [[i_, 1], [j_, 1], [j_, 0], [i_, 0]]
+            elif L == 4 and r < 0.7:
+                p_, q_ = rng.randrange(n), rng.randrange(n)
+                x = [2 * p_, 2 * p_ + 1]
+                y = [2 * q_, 2 * q_ + 1]
+                rng.shuffle(x)
+                rng.shuffle(y)
+                a_ = [[x[0], 1], [x[1], 1], [y[0], 0], [y[1], 0]]
+            elif L == 2 and r < 0.6:
+                i_ = rng.randrange(2 * n)
+                a_ = [[i_, 1], [i_, 0]]
+            else:
+                a_ = [[rng.randrange(2 * n + 1), rng.choice([1, 0]) if rng.random() < 0.3 else (1 if k < L / 2 else 0)]
+                      for k in range(L)]
+            args.append(a_)
+        items.append((n, sym, d, jd, args))
+        reqs.append(dict(jd, op='c08.doci_tensors'))
+        reqs.append(dict(jd, op='c08.doci_projected'))
+        reqs.append(dict(jd, op='c08.doci_qubit'))
+        for a_ in args:
+            reqs.append(dict(jd, op='c08.doci_getitem', args=a_))
+    ans = iter(ctx.driver.run(reqs))
+    for n, sym, d, jd, args in items:
+        m_t, m_p, m_q = next(ans), next(ans), next(ans)
+        m_g = [next(ans) for _ in args]
+        case = {'f': 'DOCIHamiltonian', 'doci': jd, 'symmetric': sym}
+        st.case(case)
+        st.count('n=%d,%s' % (n, 'symmetric' if sym else 'arbitrary'))
+        try:
+            T = d.n_body_tensors
+            jT = {'n': 2 * n, 'd': [[list(k), enc_tensor(v)] for k, v in T.items()]}
+            one_p, two_p = d.get_projected_integrals()
+            qop = d.qubit_operator
+            jq = drop_zero(enc_op('qubit', qop.terms))
+        except Exception as e:
+            st.violate('unexpected exception %s: %s' % (errname(e), e), case, {})
+            continue
+        mT = {'n': 2 * n, 'd': m_t['d']}
+        tensors_agree = canon_pt(jT) == canon_pt(mT)
+        if canon_tensor(enc_tensor(one_p), 2) != canon_tensor(m_p['one'], 2) or \
+                canon_tensor(enc_tensor(two_p), 4) != canon_tensor(m_p['two'], 4):
+            st.disagree('get_projected_integrals_from_doci', case, 'arrays differ', 'arrays differ')
+        if canon_op_json(jq) != canon_op_json(drop_zero(m_q)):
+            st.disagree('DOCIHamiltonian.qubit_operator', case, jq, m_q)
+        # __getitem__
+        for a_, mg in zip(args, m_g):
+            targ = tuple((i_, x_) for i_, x_ in a_)
+            try:
+                r = {'ok': to_gq(d[targ])}
+            except IndexError as e:
+                r = {'error': 'IndexError'}
+            except Exception as e:
+                st.violate('__getitem__ raised %s: %s' % (errname(e), e), dict(case, args=a_), {})
+                continue
+            st.count('getitem:' + ('ok' if 'ok' in r else 'IndexError'))
+            if ('ok' in r) != ('ok' in mg) or ('ok' in r and from_gq(r['ok']) != from_gq(mg['ok'])):
+                st.disagree('DOCIHamiltonian.__getitem__', dict(case, args=a_), r, mg)
+            if 'ok' in r and len(a_) in (2, 4):
+                key = tuple(x_ for _, x_ in a_)
+                idx = tuple(i_ for i_, _ in a_)
+                stored = T[key][idx]
+                if from_gq(to_gq(stored)) != from_gq(r['ok']):
+                    st.violate('DOCIHamiltonian.__getitem__ does not return n_body_tensors[key][index]',
+                               dict(case, args=a_, **{'class': 'F08d'}), {'getitem': r['ok'], 'stored': to_gq(stored)})
+        # documented qubit form (symmetric arrays): c + sum hc_p N_p + sum_{p,q} hr2_pq N_p N_q + sum_{p<q} hr1_pq/2 (XX + YY)
+        if sym:
+            one = leaf([[[], [1, 1, 0, 1]]])
+
+            def N_(p):
+                return ['smul', [1, 2, 0, 1], ['sub', one, leaf([[[[p, 3]], [1, 1, 0, 1]]])]]
+            rhs = ['smul', to_gq(d.constant), one]
+            for p in range(n):
+                if d.hc[p] != 0:
+                    rhs = ['add', rhs, ['smul', to_gq(d.hc[p]), N_(p)]]
+                for q in range(n):
+                    if d.hr2[p, q] != 0:
+                        rhs = ['add', rhs, ['smul', to_gq(d.hr2[p, q]), ['mul', N_(p), N_(q)]]]
+                    if p < q and d.hr1[p, q] != 0:
+                        xy = ['add', leaf([[[[p, 1], [q, 1]], [1, 1, 0, 1]]]), leaf([[[[p, 2], [q, 2]], [1, 1, 0, 1]]])]
+                        rhs = ['add', rhs, ['smul', to_gq(d.hr1[p, q] / 2), xy]]
+            orc.spec_eq(st, 'qubit_operator is not the documented hard-core-boson Hamiltonian', case, n, leaf(jq), rhs,
+                        alg='qubit')
+            # the tensors denote a fermion operator whose doubly-occupied block is qubit_operator
+            if n <= 2 or rng.random() < 0.25:
+                got = {}
+
+                def fin(got=got, case=case, tensors_agree=tensors_agree, jT=jT, mT=mT):
+                    if got['full']['eq']:
+                        st.count('doci-block:tensors-denote-the-operator')
+                        return
+                    if got['half']['eq']:
+                        st.count('class:F08c')
+                        st.violate('the fermion operator denoted by DOCIHamiltonian.n_body_tensors, restricted to the '
+                                   'doubly-occupied states, is not qubit_operator (its two-body tensor is twice too large)',
+                                   dict(case, **{'class': 'F08c'}), {'witness': got['full']})
+                        if not tensors_agree:
+                            st.disagree('DOCIHamiltonian.n_body_tensors', case, jT, mT)
+                    else:
+                        st.violate('DOCIHamiltonian.n_body_tensors is related to qubit_operator neither directly nor with '
+                                   'the two-body tensor halved', case, {'full': got['full'], 'half': got['half']})
+
+                def ask(key, jpt, got=got, fin=fin, n=n, jq=jq):
+                    def cb(den):
+                        def cb2(a):
+                            got[key] = a
+                            if len(got) == 2:
+                                fin()
+                        orc.ask({'op': 'c08.spec_doci_block', 'n': n, 'A': den, 'B': jq}, cb2)
+                    orc.denote_pt(jpt, cb)
+                ask('full', jT)
+                ask('half', halve_two_body(jT))
+            elif not tensors_agree:
+                settle_tensor_mismatch(orc, st, case, n, jT, mT)
+        elif not tensors_agree:
+            settle_tensor_mismatch(orc, st, case, n, jT, mT)
+        # integrals round trip (symmetric arrays): get_doci_from_integrals inverts get_projected_integrals_from_doci
+        if sym:
+            try:
+                hc2, hr12, hr22 = get_doci_from_integrals(one_p, two_p)
+                if canon_tensor(enc_tensor(hc2), 1) != canon_tensor(jd['hc'], 1) or \
+                        canon_tensor(enc_tensor(hr12), 2) != canon_tensor(jd['hr1'], 2) or \
+                        canon_tensor(enc_tensor(hr22), 2) != canon_tensor(jd['hr2'], 2):
+                    st.violate('get_doci_from_integrals(get_projected_integrals_from_doci(hc, hr1, hr2)) != (hc, hr1, hr2)',
+                               case, {'hc': enc_tensor(hc2), 'hr1': enc_tensor(hr12), 'hr2': enc_tensor(hr22)})
+            except Exception as e:
+                st.violate('integrals round trip raised %s: %s' % (errname(e), e), case, {})
+    orc.flush()
+    # arithmetic and get_doci_from_integrals
+    reqs, metas = [], []
+    for i in range(N):
+        n = rng.choice([1, 2, 3])
+        a = rand_doci(of, rng, n, rng.random() < 0.5)
+        f = rng.choice(['iadd', 'isub', 'imulS', 'idivS', 'from_integrals'])
+        if f in ('iadd', 'isub'):
+            b = rand_doci(of, rng, n if rng.random() < 0.9 else n + 1, rng.random() < 0.5)
+            reqs.append({'op': 'c08.doci_arith', 'f': f, 'a': enc_doci(a), 'b': enc_doci(b)})
+            metas.append((f, a, b, None))
+        elif f in ('imulS', 'idivS'):
+            c = rng.choice([2, 0.5, -2.0, 4, -0.25])
+            reqs.append({'op': 'c08.doci_arith', 'f': f, 'a': enc_doci(a), 'c': to_gq(c)})
+            metas.append((f, a, None, c))
+        else:
+            one = rand_real(rng, (n, n))
+            two = rand_real(rng, (n, n, n, n), 0.4)
+            reqs.append({'op': 'c08.doci_from_integrals', 'n': n, 'one': enc_tensor(one), 'two': enc_tensor(two)})
+            metas.append((f, None, (one, two), None))
+    ans = ctx.driver.run(reqs)
+    for (f, a, b, c), m in zip(metas, ans):
+        if f == 'from_integrals':
+            one, two = b
+            case = {'f': 'get_doci_from_integrals', 'one': enc_tensor(one), 'two': enc_tensor(two)}
+            st.case(case)
+            try:
+                hc, hr1, hr2 = get_doci_from_integrals(one, two)
+                dd = of.DOCIHamiltonian.from_integrals(1.5, one, two)
+            except Exception as e:
+                st.violate('get_doci_from_integrals raised %s: %s' % (errname(e), e), case, {})
+                continue
+            ok = (canon_tensor(enc_tensor(hc), 1) == canon_tensor(m['hc'], 1)
+                  and canon_tensor(enc_tensor(hr1), 2) == canon_tensor(m['hr1'], 2)
+                  and canon_tensor(enc_tensor(hr2), 2) == canon_tensor(m['hr2'], 2))
+            if not ok:
+                st.disagree('get_doci_from_integrals', case, {'hc': enc_tensor(hc), 'hr1': enc_tensor(hr1), 'hr2': enc_tensor(hr2)}, m)
+            if canon_tensor(enc_tensor(numpy.asarray(dd.hc)), 1) != canon_tensor(enc_tensor(hc), 1) or dd.constant != 1.5:
+                st.violate('DOCIHamiltonian.from_integrals differs from get_doci_from_integrals', case, {})
+            continue
+        case = {'f': 'DOCIHamiltonian ' + f, 'a': enc_doci(a), 'b': None if b is None else enc_doci(b), 'c': c}
+        st.case(case)
+        st.count('arith:' + f)
+        qa = drop_zero(enc_op('qubit', a.qubit_operator.terms))
+        qb = None if b is None else drop_zero(enc_op('qubit', b.qubit_operator.terms))
+        b0 = None if b is None else canon_doci(enc_doci(b))
+        try:
+            r0 = a
+            if f == 'iadd':
+                a += b
+            elif f == 'isub':
+                a -= b
+            elif f == 'imulS':
+                a *= c
+            else:
+                a /= c
+            r = {'ok': enc_doci(a)}
+            if a is not r0:
+                st.violate('in-place DOCIHamiltonian arithmetic returned a new object', case, {})
+        except TypeError:
+            r = {'error': 'TypeError'}
+        except Exception as e:
+            st.violate('DOCIHamiltonian arithmetic raised %s: %s' % (errname(e), e), case, {})
+            continue
+        if ('ok' in r) != ('ok' in m) or ('ok' in r and canon_doci(r['ok']) != canon_doci(m['ok'])):
+            st.disagree('DOCIHamiltonian ' + f, case, r, m)
+        if b is not None and canon_doci(enc_doci(b)) != b0:
+            st.violate('DOCIHamiltonian %s changed its right operand' % f, case, {})
+        if 'ok' in r:
+            qr = drop_zero(enc_op('qubit', a.qubit_operator.terms))
+            nq = r['ok']['n']
+            if f == 'iadd':
+                rhs = ['add', leaf(qa), leaf(qb)]
+            elif f == 'isub':
+                rhs = ['sub', leaf(qa), leaf(qb)]
+            elif f == 'imulS':
+                rhs = ['smul', to_gq(c), leaf(qa)]
+            else:
+                rhs = ['smul', to_gq(1 / c), leaf(qa)]
+            orc.spec_eq(st, 'DOCIHamiltonian %s does not act on qubit_operator accordingly' % f, case, nq, leaf(qr), rhs,
+                        alg='qubit')
+    orc.flush()
+    return st
+
 # ------------------------------------------------------------------ entry points
 
 def run(ctx):
     return [stream_arith(ctx), stream_iter(ctx), stream_conv(ctx), stream_maj(ctx), stream_rot(ctx),
-            stream_types(ctx), stream_state(ctx), stream_bands(ctx)]
+            stream_types(ctx), stream_state(ctx), stream_bands(ctx), stream_doci(ctx)]
 
 
 def classify(v):
@@ -1382,10 +1697,24 @@ def classify(v):
     inp = v.get('input', {})
     if inp.get('class') == 'F08a' and inp.get('op') in ('sub', 'isub') and f08a_class(inp['op'], inp['a'], inp['b']):
         return 'F08a'
+    if inp.get('class') in ('F08c', 'F08d') and inp.get('f') == 'DOCIHamiltonian':
+        return inp['class']
     return None
 
 
 def probe_known(ctx, k):
+    if k['id'] == 'F08c':
+        of = ctx.of
+        d = of.DOCIHamiltonian(0.0, numpy.zeros(2), numpy.array([[0.0, 1.0], [1.0, 0.0]]), numpy.zeros((2, 2)))
+        jT = {'n': 4, 'd': [[list(kk), enc_tensor(v)] for kk, v in d.n_body_tensors.items()]}
+        jq = drop_zero(enc_op('qubit', d.qubit_operator.terms))
+        den = ctx.driver.one({'op': 'c08.spec_pt', 'd': jT['d']})
+        return not ctx.driver.one({'op': 'c08.spec_doci_block', 'n': 2, 'A': den, 'B': jq})['eq']
+    if k['id'] == 'F08d':
+        of = ctx.of
+        d = of.DOCIHamiltonian(0.0, numpy.zeros(2), numpy.array([[0.0, 2.0], [2.0, 0.0]]), numpy.zeros((2, 2)))
+        t = ((0, 1), (1, 1), (2, 0), (3, 0))
+        return complex(d[t]) != complex(d.n_body_tensors[(1, 1, 0, 0)][0, 1, 2, 3])
     if k['id'] != 'F08a':
         return False
     of = ctx.of
